@@ -6,7 +6,9 @@ import DV.Model.Arith
 Statement-by-statement mirror of the Python code, including its peculiarities: `c`/`fc` are never
 advanced after initialisation (only `d := c`), the bracket test is `fa*fb >= eps` (scalar) /
 `fa*fb >= 0` (vector), the iteration counter starts at 3 and stops at 64, and success is
-`|f(b)| <= tol` with an *absolute* tolerance.  `f` is a parameter.
+`|f(b)| <= tol` (absolute) OR the final bracket holds a sign change and is narrower than
+`xtol = max(tol, 4 eps max(|lo|, |hi|))`, the tolerance all width tests use
+(since /repo fix of P14; before it only the first disjunct).  `f` is a parameter.
 -/
 namespace DV.Brent
 open DV
@@ -87,8 +89,15 @@ def loop (f : α → α) (tol : α) (maxIter : Nat) : Nat → St α → List α 
     let tr' := st'.s :: tr
     if conv || maxIter ≤ st'.numiter then (st', tr') else loop f tol maxIter fuel st' tr'
 
-/-- `tol = max(tol, eps)` -/
+/-- `tol = max(tol, eps)`: the tolerance the residual `|f(b)|` is tested against -/
 def tolUsed (tol eps : α) : α := if tol < eps then eps else tol
+
+/-- `numpy.maximum` -/
+def maxC (x y : α) : α := if x < y then y else x
+
+/-- `xtol = maximum(tol, 4*eps*maximum(|a|, |b|))`: the tolerance the WIDTH of the bracket is tested
+against — no bracket can become narrower than the spacing of the numbers at its ends -/
+def xtolUsed (tol eps lo hi : α) : α := maxC (tolUsed tol eps) (lit 4 * eps * maxC (absC lo) (absC hi))
 
 /-- the state the loop starts from: ends swapped so that `b` has the smaller residual, `c = a`,
 `d = b`, `mflag = True`, `numiter = 3` -/
@@ -105,9 +114,12 @@ def run (f : α → α) (lo hi tol : α) (maxIter : Nat) : St α × List α :=
 rejected bracket -/
 def brentsroot (f : α → α) (lo hi tol eps inf : α) (maxIter : Nat := 64) : Result α :=
   if eps ≤ f lo * f hi then { root := inf, success := false, bracket := none, iters := 0, trace := [] } else
-  let r := run f lo hi (tolUsed tol eps) maxIter
-  { root := r.1.b, success := decide (absC (f r.1.b) ≤ tolUsed tol eps), bracket := some (r.1.a, r.1.b),
-    iters := r.1.numiter, trace := r.2.reverse }
+  let r := run f lo hi (xtolUsed tol eps lo hi) maxIter
+  -- success: a zero to within the tolerance, or a sign change located to within the (width) tolerance
+  { root := r.1.b,
+    success := decide (absC (f r.1.b) ≤ tolUsed tol eps) ||
+      (decide (r.1.fa * r.1.fb ≤ lit 0) && decide (absC (r.1.b - r.1.a) < xtolUsed tol eps lo hi)),
+    bracket := some (r.1.a, r.1.b), iters := r.1.numiter, trace := r.2.reverse }
 
 /-! ## one lane of `brentsrootvec`
 
@@ -115,15 +127,18 @@ The vector code runs every lane with masks; a lane is *active* (`conv = True` in
 inverted naming) while it has not converged.  Differences from the scalar solver that the lane
 model keeps: the bracket test is `fa*fb >= 0` (a zero at an end point makes the lane inactive from
 the start), a lane is only deactivated by `numiter > 64` (one more pass than the scalar code),
-`s`/`fs` of inactive lanes keep their last values, and `true_conv = |fb| <= tol`. -/
+`s`/`fs` of inactive lanes keep their last values, and
+`true_conv = (|fb| <= tol) | (bracketed & |b - a| < xtol)`. -/
 def lane (f : α → α) (lo hi tol eps : α) (maxIter : Nat := 64) : Result α :=
   let st0 := start f lo hi
   if lit 0 ≤ st0.fa * st0.fb then
     { root := st0.b, success := decide (absC st0.fb ≤ tolUsed tol eps), bracket := some (st0.a, st0.b), iters := 3, trace := [] }
   else
     -- the vector loop tests `numiter <= 64` after the increment: active while numiter ≤ 64
-    let r := run f lo hi (tolUsed tol eps) (maxIter + 1)
-    { root := r.1.b, success := decide (absC r.1.fb ≤ tolUsed tol eps), bracket := some (r.1.a, r.1.b),
-      iters := r.1.numiter, trace := r.2.reverse }
+    let r := run f lo hi (xtolUsed tol eps lo hi) (maxIter + 1)
+    -- `true_conv = (|fb| <= tol) | (bracketed & (|b - a| < xtol))`; this branch is the bracketed one
+    { root := r.1.b,
+      success := decide (absC r.1.fb ≤ tolUsed tol eps) || decide (absC (r.1.b - r.1.a) < xtolUsed tol eps lo hi),
+      bracket := some (r.1.a, r.1.b), iters := r.1.numiter, trace := r.2.reverse }
 
 end DV.Brent
